@@ -134,6 +134,11 @@ func libraryCompress(c *mon.C, msg []byte, level int, resettable bool, endMode i
 		w = wsflate.NewWriter(&dst, compressorCtor(level, resettable, endMode != 0))
 	}
 	parts := splitRandom(c, msg, 8)
+	if len(msg) == 0 && c.Rng.Intn(2) == 0 {
+		// an empty message for which the application makes NO Write call at all: Flush / Close alone end it
+		parts = nil
+		pattern += "(no Write) "
+	}
 	for i, p := range parts {
 		if c.Rng.Intn(4) == 0 {
 			// through io.Copy (chunked source; any io.ReaderFrom fast path of the writer included)
